@@ -148,3 +148,51 @@ def leave_and_reuse(seed: int, n: int) -> List[List[dict]]:
         b += [snd("b", data(1234, 7, 0, 0, 4)), rnd("", ["b"], ["b", "c", "d"])]
         out.append(b)
     return out
+
+
+def stats_matrix(seed: int, n: int) -> List[List[dict]]:
+    """intervals with 0, 1, 63, 64, 65, 128, 129, 300 distinct types (and out-of-range type ids),
+    observed by a monitor subscribed to TIMING_MESSAGE and MESSAGE_TRAFFIC."""
+    r = random.Random(seed)
+    sizes = [0, 1, 2, 63, 64, 65, 127, 128, 129, 300]
+    out = []
+
+    def setup():
+        b = [opn("a"), opn("m"), rnd("a"), rnd("m"), snd("a", con(1)), snd("m", con(2)), rnd("", ["a", "m"], ["a", "m"])]
+        for t in (80, 30):
+            b += [snd("m", sub(15, 2, t)), rnd("", ["m"], ["a", "m"])]
+        b += [snd("a", {"k": "f", "t": 26, "src": 1, "dst": 0, "dhost": 0, "p": {"k": "rdy", "pid": 4242}}),
+              rnd("", ["a"], ["a", "m"])]
+        return b
+
+    def interval(b, ntypes, base, reps, extra=()):
+        types = [base + i for i in range(ntypes)] + list(extra)
+        for t in types:
+            for k in range(reps):
+                b += [snd("a", data(t, 1, 0, 0, 1)), rnd("", ["a"], ["a", "m"])]
+        b += [{"a": "Tick", "n": 3}, rnd("", [], [])]
+
+    plans = []
+    for s in sizes:
+        plans.append([(s, 1000, 1, ())])
+    plans.append([(3, 1000, 2, ()), (0, 0, 1, ()), (2, 1001, 1, ()), (65, 2000, 1, ())])       # sequences of intervals
+    plans.append([(64, 1000, 1, ()), (64, 1032, 1, ()), (1, 5, 3, ())])
+    plans.append([(2, 9998, 1, (10000, 10001))])          # ids at and beyond the end of the TIMING array
+    plans.append([(1, 50, 1, (-5, 70000, 2147483646))])
+    plans.append([(1, 80, 1, (30,))])                      # a client publishing the statistics types itself
+    # sequences of intervals over the whole type range: what one report lists must not leak into the next
+    plans.append([(3, 6000, 2, ()), (2, 100, 1, ()), (0, 0, 1, ()), (1, 9999, 1, (0,))])
+    for k in range(3):
+        pl = []
+        for j in range(4):
+            ts = tuple(r.randrange(0, 10000) for _ in range(r.randrange(0, 6)))
+            pl.append((0, 0, r.choice((1, 1, 2)), ts))
+        plans.append(pl)
+    if n and n < len(plans):
+        plans = plans[:n]
+    for pl in plans:
+        b = setup()
+        for (s, base, reps, extra) in pl:
+            interval(b, s, base, reps, extra)
+        out.append(b)
+    return out
